@@ -145,6 +145,20 @@ class TS:
         out.append(TS(cur))
         return out
 
+    def partition(self, sep, last=False):
+        """(head, sep, tail) like str.partition / rpartition; exact for punctuation separators."""
+        if not sep.all_lit() or not sep.t:
+            raise Undetermined("partition on a symbolic separator")
+        s = sep.text()
+        if not all(ch in PUNCT for ch in s):
+            raise Undetermined(f"partition({s!r}): separator may occur inside an atom")
+        n = len(s)
+        idxs = [i for i in range(len(self.t) - n + 1) if all(self.t[i + j] == ("c", s[j]) for j in range(n))]
+        if not idxs:
+            return (TS(), TS(), self) if last else (self, TS(), TS())
+        i = idxs[-1] if last else idxs[0]
+        return (TS(self.t[:i]), TS(self.t[i:i + n]), TS(self.t[i + n:]))
+
     def strip(self):
         t = list(self.t)
         while t and t[0][0] == "c" and t[0][1] in " \t\n":
@@ -707,6 +721,21 @@ class SymEval:
                     return recv.split(args[0], ms)
                 if m == "strip" and not args:
                     return recv.strip()
+                if m in ("partition", "rpartition") and len(args) == 1:
+                    return tuple(recv.partition(args[0], last=(m == "rpartition")))
+                if m in ("lstrip", "rstrip") and not args:
+                    t = list(recv.t)
+                    if m == "lstrip":
+                        while t and t[0][0] == "c" and t[0][1] in " \t\n":
+                            t.pop(0)
+                    else:
+                        while t and t[-1][0] == "c" and t[-1][1] in " \t\n":
+                            t.pop()
+                    return TS(t)
+                if m == "rsplit":
+                    if len(args) == 1:
+                        return recv.split(args[0])
+                    raise Undetermined("rsplit with maxsplit")
                 if m == "find":
                     return recv.find(args[0])
                 if m == "endswith":
